@@ -409,7 +409,14 @@ def wrap_obligations(prog):
     sites = [{"idbase": _grp(o.oid), "fn": o.fn, "loc": o.loc, "text": o.text, "proved": bool(o.ok), "detail": o.detail, "props": o.props}
              for o in allobs]
     obs = armed_group_obligations("R-WRAP", sites, groups, unproved=tab.get("unproved"))
-    return obs, {"candidates": len(allobs), "armed_groups": len(groups),
+    # second level, per receiving object: inside one (function, kind) group a guard may move from one quantity to another
+    # (`*scale > MAX / 10` for `*max_value > MAX / 10`) with both counts unchanged.  A renamed object makes its group
+    # vanish (not decided here, the coarse group above still counts it); it never fires.
+    fine = tab.get("fine", {})
+    fsites = [{"idbase": o.oid.rsplit("#", 1)[0] + ":obj", "fn": o.fn, "loc": o.loc, "text": o.text, "proved": bool(o.ok), "detail": o.detail,
+               "props": o.props} for o in allobs]
+    obs += armed_group_obligations("R-WRAP", fsites, fine, unproved=tab.get("fine_unproved"))
+    return obs, {"candidates": len(allobs), "armed_groups": len(groups), "armed_objects": len(fine),
                  "not_provable": [o.oid + ": " + o.detail for o in allobs if not o.ok]}
 
 
@@ -538,8 +545,16 @@ if __name__ == "__main__":
                 wg[b] = wg.get(b, 0) + 1
             else:
                 wu[b] = wu.get(b, 0) + 1
-        json.dump({"_comment": "R-WRAP: per (function, statement) the number of instances that hold / do not hold on the reviewed tree (python3 rules/r_cap.py regen).",
-                   "groups": dict(sorted(wg.items())), "unproved": {k: v for k, v in sorted(wu.items()) if k in wg}}, open(os.path.join(VERIF, "tables", "wrap_sites.json"), "w"), indent=0)
+        fg, fu = {}, {}
+        for o in w:
+            b = o.oid.rsplit("#", 1)[0] + ":obj"
+            if o.ok:
+                fg[b] = fg.get(b, 0) + 1
+            else:
+                fu[b] = fu.get(b, 0) + 1
+        json.dump({"_comment": "R-WRAP: per (function, kind of operation) and per (function, receiving object, operation) the number of instances that hold / do not hold on the reviewed tree (python3 rules/r_cap.py regen).",
+                   "groups": dict(sorted(wg.items())), "unproved": {k: v for k, v in sorted(wu.items()) if k in wg},
+                   "fine": dict(sorted(fg.items())), "fine_unproved": {k: v for k, v in sorted(fu.items()) if k in fg}}, open(os.path.join(VERIF, "tables", "wrap_sites.json"), "w"), indent=0)
         for o in w:
             print("WRAP", "armed" if o.ok else "not-armed", o.oid, o.detail)
         return_ = None
